@@ -287,7 +287,7 @@ class NativeFifoSlave:
                 addr, data = self.rq[pi].pop(0)
                 self.log.append(("R", t, pi, addr, data))
             if p.mode != "read" and self.drive_wready[pi] and get(p.wdata.valid):
-                self.wq[pi].append((get(p.wdata.data), get(p.wdata.we)))
+                self.wq[pi].append((get(p.wdata.data), get(p.wdata.we), t))
                 if not any(c[0] == pi and c[1] for c in self.q):
                     self.max_wq_ahead = max(self.max_wq_ahead, len(self.wq[pi]))
             if self.drive_ready[pi] and get(p.cmd.valid):
@@ -307,13 +307,13 @@ class NativeFifoSlave:
             p = self.ports[pi]
             if we:
                 if self.wq[pi]:
-                    d, be = self.wq[pi].pop(0)
+                    d, be, th = self.wq[pi].pop(0)
                     old = self.read_mem(addr, p.data_width)
                     for b in range(p.data_width // 8):
                         if (be >> b) & 1:
                             old = (old & ~(0xff << (8 * b))) | (d & (0xff << (8 * b)))
                     self.mem[addr] = old
-                    self.log.append(("W", t, pi, addr, d, be, 1))
+                    self.log.append(("W", th, pi, addr, d, be, 1))      # time = when the beat was handed to the port
                     self.q.pop(0)
             elif len(self.rq[pi]) < self.rdepth:
                 self.rq[pi].append((addr, self.read_mem(addr, p.data_width)))
